@@ -96,7 +96,8 @@ def _ite_any(c, a, b):
         if not (isinstance(a, ArrV) and isinstance(b, ArrV)):
             raise Unsupported("ite array/non-array")
         shape = tuple(ite(c, x, y) for x, y in zip(a.shape, b.shape))
-        return ArrV(shape, lambda idx: _ite_any(c, a.fn(idx), b.fn(idx)), a.dtype)
+        # may-alias: the merged value can share a buffer with either branch's value
+        return ArrV(shape, lambda idx: _ite_any(c, a.fn(idx), b.fn(idx)), a.dtype, bufs=(set(a.bufs) | set(b.bufs)))
     if a is None and b is None:
         return None
     if a is b:
